@@ -525,6 +525,27 @@ pub fn c09(opts: &Opts) -> Report {
                      vec![("template", t3.text.clone()), ("template2", t4.text.clone()), ("input", x.clone()), ("observed", t3.real.show()), ("expected", t4.real.show()), ("theorem", "C09_implicit_join".into())]);
                 return;
             }
+            // identity 4 (the other direction): a non-empty list whose items are free of a one-character separator
+            // comes back, item by item, from join-then-split (random choices from a fork of the stream)
+            if s.chars().count() == 1 && !big {
+                let mut r4 = ctx.rng.clone();
+                let c = s.chars().next().unwrap();
+                let mut items: Vec<String> = vec![String::new()];
+                for d in x.chars().filter(|d| *d != c) { if r4.chance(1, 4) { items.push(String::new()); } items.last_mut().unwrap().push(d); }
+                if r4.chance(1, 3) { items.push(String::new()); }
+                let joined = items.join(s.as_str());
+                let ops5 = vec![Op::Split(s.clone(), full.clone()), Op::Map(vec![Op::Prepend("<".into()), Op::Append(">".into())]), Op::Join("/".into())];
+                let t5 = triple(ctx, &ops5, &joined, false);
+                if !judge(ctx, "C09", &t5, &ops5, &joined, "C09_code_does_this") { return; }
+                let expect5 = Out::Ok(items.iter().map(|it| format!("<{it}>")).collect::<Vec<_>>().join("/"));
+                if t5.real != expect5 {
+                    viol(ctx, format!("C09: {} on the join of {} separator-free items = {} but the items were {}", t5.text, items.len(), t5.real.show(), expect5.show()),
+                         vec![("template", t5.text.clone()), ("input", joined.clone()), ("observed", t5.real.show()), ("expected", expect5.show()), ("theorem", "C09_split_join_id".into())]);
+                    return;
+                }
+                ctx.rep.bump("split_of_join_lists");
+                if items.len() > 1 { ctx.rep.bump("split_of_join_lists_with_two_or_more_items"); }
+            }
             if !s.is_empty() && x.contains(s.as_str()) { ctx.rep.nontrivial(&(x.clone(), s.clone(), t3.text.clone())); }
             ctx.rep.bump(if big { "big_input" } else { "small_input" });
             ctx.rep.bump(match s.len() { 0 => "sep_empty", 1 => "sep_one_byte", _ => if s.is_ascii() { "sep_multi_ascii" } else { "sep_non_ascii" } });
